@@ -63,10 +63,10 @@ class OpenmlSource(Source[Iterable[Tuple[Union[MutableSequence, MutableMapping],
 
             if openml_semaphore and not self._source_already_cached():
                 openml_semaphore.acquire()
+                semaphore_acquired = True #set at once so that it is released even if the check below raises
                 if self._source_already_cached(): #pragma: no cover
                     openml_semaphore.release() #in-case another process cached everything needed while we were waiting
-                else:
-                    semaphore_acquired = True
+                    semaphore_acquired = False
 
             if self._data_id:
                 data_descr   = self._get_data_descr(self._data_id)
